@@ -501,7 +501,7 @@ func (g *Gen) assignRegistry(n *Node, pos TS, seen map[*Node]bool) {
 		} else if ts.L == nil && r.Chance(1, 4) {
 			ts.L = ip(g.pickL())
 		}
-		if ts.Rules == nil && r.Chance(1, 2) {
+		if ts.Rules == nil && r.Chance(3, 5) {
 			ru := &ARules{}
 			if r.Chance(1, 3) {
 				ru.Min = uint64(r.Intn(3))
@@ -510,8 +510,8 @@ func (g *Gen) assignRegistry(n *Node, pos TS, seen map[*Node]bool) {
 				ru.Max = uint64(1 + r.Intn(6))
 			}
 			if n.K != KMap || r.Chance(1, 4) {
-				ru.NoDup = r.Chance(1, 3)
-				ru.Lex = r.Chance(1, 3)
+				ru.NoDup = r.Chance(1, 2)
+				ru.Lex = r.Chance(1, 2)
 			}
 			e := n.Elem
 			if n.K != KMap && (e.K == KIface || (e.K == KStruct || e.K == KPtr) && g.codeOf(e) != nil) {
